@@ -83,7 +83,7 @@ class MappedText:
 def parse_vspec(path):
     spec = dict(unit=None, source=None, props_safety=[], props_internal=[], result='res', attrs=[],
                 requires=[], ensures=[], decreases=None, implextra=[], aftereach=[], regions=[], tail=None, tailbind=None, implas=None, entry=None, loops={}, closures={}, ats=[],
-                subs=[], sigsubs=[], path=path, notes=[])
+                subs=[], sigsubs=[], path=path, notes=[], decls=[])
     cur = None
 
     def start(key, rest):
@@ -164,6 +164,12 @@ def parse_vspec(path):
             else:
                 raise SliceError('%s: bad at-line: %s' % (path, rest))
             spec['ats'].append(cur)
+        elif key == 'decl':
+            m = re.match(r'\s*"((?:[^"\\]|\\.)*)"\s*$', rest)
+            if not m:
+                raise SliceError('%s: bad decl-line: %s' % (path, rest))
+            spec['decls'].append(m.group(1).replace('\\"', '"').replace('\\\\', '\\'))
+            cur = None
         elif key in ('sub', 'sig', 'subw'):
             m = re.match(r'\s*(?:(R\d+[a-z]?)\s+)?"((?:[^"\\]|\\.)*)"\s*=>\s*"((?:[^"\\]|\\.)*)"\s*$', rest)
             if not m:
@@ -253,9 +259,24 @@ def fuzzy_locate(text, anchor):
 
 
 def apply_renames(txt, ren):
-    for old, new in ren.items():
-        txt = re.sub(r'(?<![\w.])%s\b' % re.escape(old), new, txt)
-    return txt
+    """simultaneous, whole-word (not after `.`) renaming of identifiers"""
+    if not ren or not txt:
+        return txt
+    rx = re.compile(r'(?<![\w.])(%s)\b' % '|'.join(re.escape(k) for k in sorted(ren, key=len, reverse=True)))
+    return rx.sub(lambda m: ren[m.group(1)], txt)
+
+
+def rename_spec(spec, ren):
+    """carry identifier renames (a local / parameter was renamed in the code) over to every clause and proof aid"""
+    if not ren:
+        return spec
+    r = lambda t: apply_renames(t, ren)
+    sec = lambda d: (dict(d, text=r(d['text'])) if d else d)
+    return dict(spec, requires=[sec(c) for c in spec['requires']], ensures=[sec(c) for c in spec['ensures']],
+                decreases=sec(spec['decreases']), entry=sec(spec['entry']), tail=sec(spec['tail']),
+                loops={k: sec(v) for k, v in spec['loops'].items()}, closures={k: sec(v) for k, v in spec['closures'].items()},
+                ats=[sec(a) for a in spec['ats']])
+
 
 GLOBAL_RULES = [
     # (id, regex, replacement, description)
@@ -613,7 +634,7 @@ class Weaver:
             file, segs, k = auto
             unit = 'auto.%s' % segs[-1].split()[-1]
             spec = dict(unit=unit, source=file + ' :: ' + ' :: '.join(segs), props_safety=['C02'], props_internal=[], result='res', attrs=['#[verifier::exec_allows_no_decreases_clause]'],
-                        requires=[], ensures=[], decreases=None, entry=None, loops={}, closures={}, ats=[], subs=[], sigsubs=[], path=None,
+                        requires=[], ensures=[], decreases=None, entry=None, loops={}, closures={}, ats=[], subs=[], sigsubs=[], path=None, decls=[],
                         notes=['auto-extracted helper without contract'], implextra=[], aftereach=[], regions=[], tail=None, tailbind=None, implas=None)
         else:
             spec = parse_vspec(os.path.join(self.verif, 'contracts', unit + '.vspec'))
@@ -628,6 +649,21 @@ class Weaver:
         if it['kind'] != 'fn' or it['body_open'] is None:
             raise SliceError('%s: source is not a fn with a body' % unit)
         log = []
+        # declaration anchors (`decl "<line>"`: the line that introduces a name the contract or its proof aids mention): when such a
+        # line is no longer present verbatim but matches up to consistently renamed identifiers, the renames are carried over
+        pre_renames = {}
+        fulltext = S.slice(it['start'], it['end'])
+        nfull = norm(fulltext)
+        for d in spec.get('decls', []):
+            if norm(d) not in nfull:
+                fz = fuzzy_locate(fulltext, d)
+                if fz:
+                    for k_, v_ in fz[2].items():
+                        if pre_renames.get(k_, v_) == v_:
+                            pre_renames[k_] = v_
+        if pre_renames:
+            log.append(('fuzzy', 'declarations renamed in the code, carried over to the contract and its proof aids: %s' % ', '.join('%s -> %s' % kv for kv in sorted(pre_renames.items()))))
+            spec = rename_spec(spec, pre_renames)
         sig = S.slice(it['start'], it['body_open']).rstrip()
         for rid, old, new in spec['sigsubs']:
             if old not in sig:
@@ -720,7 +756,7 @@ class Weaver:
             mt.replace(m.start(), m.end(), '')
             pos = m.start()
         lost = []     # anchors that no longer resolve: the woven text is skipped (a proof aid is missing, never a verdict)
-        sub_renames = {}
+        sub_renames = dict(pre_renames)
         # declared substitutions first (exact text, must match)
         for rid, old, new in spec['subs']:
             if isinstance(old, tuple):
